@@ -48,7 +48,7 @@ Section Thm.
   Lemma op_synced fuel o s s' : run_op E cf fuel o s = Ok s' -> evaluating o -> synced s'.
   Proof.
     destruct o as [nn tb a b|nn tb b|i|t|t| |t v vn|t v vn]; cbn; intros H Hev; try tauto.
-    - subst a. rewrite opt_step_no_args in H. pose proof (step_core_spec E cf fuel nn tb b s) as P.
+    - subst a. rewrite opt_step_no_args in H. pose proof (step_core_spec E cf fuel nn tb b (pre_clip E cf s)) as P.
       rewrite H in P. cbn in P. tauto.
     - pose proof (solve_spec E cf fuel nn tb b s) as P. rewrite H in P. cbn in P. tauto.
     - pose proof (reload_spec E cf i s) as P. rewrite H in P. cbn in P.
@@ -102,7 +102,8 @@ Section Thm.
       - intros s' (r & r' & _ & _ & _ & _ & L & _ & _ & _ & _ & T & _). rewrite L. apply Forall_app; auto.
       - intros e s' [[_ ->]|(r & _ & _ & _ & _ & L & _)]; auto. rewrite L; auto. }
     destruct o as [nn tb a b|nn tb b|i|t|t| |t v vn|t v vn]; cbn.
-    - unfold opt_step. destruct (pre_flags_data E cf a s) as (_ & Lp & _).
+    - unfold opt_step. destruct (pre_flags_data E cf a (pre_clip E cf s)) as (_ & Lp & _).
+      destruct (pre_clip_facts E cf s) as (_ & _ & Lc & _). rewrite Lc in Lp.
       eapply post_bind'; [apply step_core_spec| |].
       + intros e s' (_ & X). apply ext_rows_truth in X. destruct X as (m & L & Fm). rewrite L, Lp.
         apply Forall_app; auto.
@@ -135,8 +136,15 @@ Section Thm.
     init E cf k0 va0 = Ok s0 -> reach s0 s -> Forall truthful (log s).
   Proof.
     intros Hi Hr. induction Hr as [|s1 fuel o s2 Hr IH Ho|s1 fuel o e s2 Hr IH Ho].
-    - unfold init in Hi. pose proof (add_point_spec E cf 0%N (pre_init E cf k0 va0)) as P. rewrite Hi in P. cbn in P.
-      destruct P as (_ & _ & _ & _ & _ & (r & L & _ & _ & _ & _ & T)). rewrite L. cbn. auto.
+    - unfold init in Hi. pose proof (add_point_spec E cf 0%N (pre_init E cf k0 va0)) as P.
+      destruct (c_check cf).
+      + rewrite Hi in P. cbn in P.
+        destruct P as (_ & _ & _ & _ & _ & (r & L & _ & _ & _ & _ & T)). rewrite L. cbn. auto.
+      + destruct (add_point E cf 0%N (pre_init E cf k0 va0)) as [s1|e1 s1|]; cbn in Hi; try discriminate.
+        cbn in P. destruct P as (_ & _ & _ & _ & _ & (r & L & _ & _ & _ & _ & T)).
+        pose proof (add_point_spec E cf 0%N (set_knobs s1 (clip_knobs E (va s1) (c_lim cf) (knobs s1)))) as P2.
+        rewrite Hi in P2. cbn in P2. destruct P2 as (_ & _ & _ & _ & _ & (r2 & L2 & _ & _ & _ & _ & T2)).
+        rewrite L2. stsimpl. rewrite L. cbn. auto.
     - pose proof (op_rows_truthful fuel o s1 IH) as P. rewrite Ho in P. exact P.
     - pose proof (op_rows_truthful fuel o s1 IH) as P. rewrite Ho in P. exact P.
   Qed.
@@ -182,6 +190,18 @@ Section Thm.
   Section ArgMin.
     Hypothesis ltb_trans : forall a b c : F, e_ltb E a b = true -> e_ltb E b c = true -> e_ltb E a c = true.
     Hypothesis ltb_irrefl : forall a : F, e_ltb E a a = false.
+    (* nothing is below a NaN (b <= b fails exactly for NaN) *)
+    Hypothesis nan_cmp : forall a b : F, e_leb E b b = false -> e_ltb E a b = false.
+
+    Lemma first_nan_spec : forall l k i, first_nan E k l = Some i ->
+      exists j p, i = k + j /\ nth_error l j = Some p /\ e_leb E p p = false.
+    Proof.
+      induction l as [|p l IH]; intros k i H; cbn in H; [discriminate|].
+      destruct (isnan E p) eqn:Hp.
+      - inversion H; subst. exists 0, p. split; [lia|]. split; auto. unfold isnan in Hp.
+        destruct (e_leb E p p); auto; discriminate.
+      - destruct (IH _ _ H) as (j & q & A & B & C). exists (S j), q. split; [lia|]. auto.
+    Qed.
 
     Lemma argmin_from_spec : forall l best bp i, best < i ->
       exists v, ((argmin_from E best bp i l = best /\ v = bp) \/
@@ -212,7 +232,10 @@ Section Thm.
 
     Lemma argmin_spec l v : nth_error l (argmin E l) = Some v -> forall e, In e l -> e_ltb E e v = false.
     Proof.
-      destruct l as [|p l]; [intros _ e []|]. unfold argmin.
+      unfold argmin. destruct (first_nan E 0 l) as [i|] eqn:Hf.
+      { destruct (first_nan_spec _ _ _ Hf) as (j & p & A & B & C). cbn in A. subst i.
+        intros Hn e _. rewrite B in Hn. inversion Hn; subst. apply nan_cmp; auto. }
+      destruct l as [|p l]; [intros _ e []|].
       destruct (argmin_from_spec l 0 p 1 Nat.lt_0_1) as (w & Hc & H1 & H2). intros Hn.
       assert (w = v).
       { destruct Hc as [[Hr ->]|(j & Hr & Hj & _)]; rewrite Hr in Hn; cbn in Hn; congruence. }
@@ -221,19 +244,20 @@ Section Thm.
 
     Lemma take_best fuel nn a b s s' :
       opt_step E cf fuel nn true a b s = Ok s' ->
-      exists r0 M extra, log s' = log s ++ (r0 :: M) ++ extra /\ r_knobs r0 = knobs s /\
-        ((exists res, e_f E (knobs s') = Some res /\ within_tol (ta (pre_flags E cf a s)) res) \/
+      exists r0 M extra, log s' = log s ++ (r0 :: M) ++ extra /\ r_knobs r0 = knobs (pre_clip E cf s) /\
+        ((exists res, e_f E (knobs s') = Some res /\ within_tol (ta (pre_flags E cf a (pre_clip E cf s))) res) \/
          exists rb, In rb (r0 :: M) /\ (forall r, In r (r0 :: M) -> e_ltb E (r_pen r) (r_pen rb) = false) /\
                     rt_rel E ws (r_knobs rb) (knobs s')).
     Proof.
       unfold opt_step. intros H.
-      pose proof (step_core_spec E cf fuel nn true b (pre_flags E cf a s)) as P.
-      destruct (step_core E cf fuel nn true b (pre_flags E cf a s)) as [s1|e s1|]; cbn in H; try discriminate.
+      pose proof (step_core_spec E cf fuel nn true b (pre_flags E cf a (pre_clip E cf s))) as P.
+      destruct (step_core E cf fuel nn true b (pre_flags E cf a (pre_clip E cf s))) as [s1|e s1|]; cbn in H; try discriminate.
       inversion H; subst s'. unfold post in P.
       destruct P as ((_ & Ft & _) & Sy & _ & (r0 & M & extra & L & Rk & _ & Htb)).
-      destruct (pre_flags_data E cf a s) as (Kp & Lp & _).
+      destruct (pre_flags_data E cf a (pre_clip E cf s)) as (Kp & Lp & _).
+      destruct (pre_clip_facts E cf s) as (_ & _ & Lc & _).
       destruct (post_flags_data E cf a s1) as (Kq & Lq & _).
-      exists r0, M, extra. rewrite Lq, Kq, L, Lp, Rk, Kp. split; auto. split; auto.
+      exists r0, M, extra. rewrite Lq, Kq, L, Lp, Lc, Rk, Kp. split; auto. split; auto.
       destruct (Htb eq_refl) as [Hl|(rb & Hn & Hrt)].
       - left. destruct (synced_flag s1 Sy Hl) as (r & A & _ & B). exists r. rewrite <- Ft. auto.
       - right. exists rb. split; [eapply nth_error_In; eauto|]. split; auto.
@@ -246,10 +270,10 @@ Section Thm.
   (* ---- C10: disabled knobs, temporary flags --------------------------------------------- *)
   Lemma step_inactive fuel nn tb a b s :
     post (opt_step E cf fuel nn tb a b s)
-      (fun s' => kn_inact E (va (pre_flags E cf a s)) (knobs s) (knobs s'))
-      (fun e s' => kn_inact E (va (pre_flags E cf a s)) (knobs s) (knobs s')).
+      (fun s' => kn_inact E (va (pre_flags E cf a (pre_clip E cf s))) (knobs (pre_clip E cf s)) (knobs s'))
+      (fun e s' => kn_inact E (va (pre_flags E cf a (pre_clip E cf s))) (knobs (pre_clip E cf s)) (knobs s')).
   Proof.
-    unfold opt_step. destruct (pre_flags_data E cf a s) as (Kp & _).
+    unfold opt_step. destruct (pre_flags_data E cf a (pre_clip E cf s)) as (Kp & _).
     eapply post_bind'; [apply step_core_spec| |].
     - intros e s' ((_ & _ & Hk) & _). rewrite Kp in Hk. exact Hk.
     - intros s1 ((_ & _ & Hk) & _). unfold post. destruct (post_flags_data E cf a s1) as (Kq & _).
@@ -263,15 +287,21 @@ Section Thm.
     destruct P as ((_ & _ & Hk) & _). exact Hk.
   Qed.
 
+  Lemma pre_flags_flags a s1 s2 : va s1 = va s2 -> ta s1 = ta s2 ->
+    va (pre_flags E cf a s1) = va (pre_flags E cf a s2) /\ ta (pre_flags E cf a s1) = ta (pre_flags E cf a s2).
+  Proof. intros Hv Ht. unfold pre_flags. rewrite !able_va, !able_ta. cbn. rewrite Hv, Ht. auto. Qed.
+
   Lemma step_flags fuel nn tb a b s s' :
     opt_step E cf fuel nn tb a b s = Ok s' ->
     va s' = va (post_flags E cf a (pre_flags E cf a s)) /\ ta s' = ta (post_flags E cf a (pre_flags E cf a s)).
   Proof.
     unfold opt_step. intros H.
-    pose proof (step_core_spec E cf fuel nn tb b (pre_flags E cf a s)) as P.
-    destruct (step_core E cf fuel nn tb b (pre_flags E cf a s)) as [s1|e s1|]; cbn in H; try discriminate.
+    pose proof (step_core_spec E cf fuel nn tb b (pre_flags E cf a (pre_clip E cf s))) as P.
+    destruct (step_core E cf fuel nn tb b (pre_flags E cf a (pre_clip E cf s))) as [s1|e s1|]; cbn in H; try discriminate.
     inversion H; subst s'. unfold post in P. destruct P as ((Fv & Ft & _) & _).
-    apply post_flags_flags; auto.
+    destruct (pre_clip_facts E cf s) as (Vc & Tc & _).
+    destruct (pre_flags_flags a _ _ Vc Tc) as [Pv Pt].
+    apply post_flags_flags; congruence.
   Qed.
 
   (* which positions a list selector names *)
@@ -348,16 +378,22 @@ Section Thm.
 
   Lemma step_inactive_ok fuel nn tb a b s s' :
     opt_step E cf fuel nn tb a b s = Ok s' ->
-    forall i, nth_error (va (pre_flags E cf a s)) i = Some false -> nth_error (knobs s') i = nth_error (knobs s) i.
+    forall i, nth_error (va (pre_flags E cf a s)) i = Some false ->
+              nth_error (knobs s') i = nth_error (knobs (pre_clip E cf s)) i.
   Proof.
-    intros H. pose proof (step_inactive fuel nn tb a b s) as P. rewrite H in P. cbn in P.
+    intros H. pose proof (step_inactive fuel nn tb a b s) as P. rewrite H in P. unfold post in P.
+    destruct (pre_clip_facts E cf s) as (Vc & Tc & _).
+    destruct (pre_flags_flags a _ _ Vc Tc) as [Pv _]. rewrite Pv in P.
     apply (kn_inact_nth E _ _ _ P).
   Qed.
   Lemma step_inactive_err fuel nn tb a b s e s' :
     opt_step E cf fuel nn tb a b s = Err e s' ->
-    forall i, nth_error (va (pre_flags E cf a s)) i = Some false -> nth_error (knobs s') i = nth_error (knobs s) i.
+    forall i, nth_error (va (pre_flags E cf a s)) i = Some false ->
+              nth_error (knobs s') i = nth_error (knobs (pre_clip E cf s)) i.
   Proof.
-    intros H. pose proof (step_inactive fuel nn tb a b s) as P. rewrite H in P. cbn in P.
+    intros H. pose proof (step_inactive fuel nn tb a b s) as P. rewrite H in P. unfold post in P.
+    destruct (pre_clip_facts E cf s) as (Vc & Tc & _).
+    destruct (pre_flags_flags a _ _ Vc Tc) as [Pv _]. rewrite Pv in P.
     apply (kn_inact_nth E _ _ _ P).
   Qed.
   Lemma solve_inactive_ok fuel nn tb b s s' :
